@@ -798,7 +798,7 @@ ASSUMPTIONS = [
     "it: how many body bytes arrive with the head is compared only where both sides have them)",
     "http 1.5.0: Method::from_bytes, HeaderName::from_bytes, HeaderValue::from_maybe_shared/to_str, Uri::from_maybe_shared (scheme http/https, "
     "authority scan, path/query classes, UTF-8 check) are transcribed into the model and validated by the differential run, not proved against "
-    "the crate; parse_print* take the crate's verdict on the target as the hypothesis parse_uri .. = Some ..",
+    "the crate; parse_print* take the crate's verdict on the URI (scheme://host target when the Host value is an authority, the origin-form target alone otherwise) as the hypothesis request_uri .. = Some ..",
     "HeaderMap::insert's MAX_SIZE (32768 entries) panic is not modelled: unreachable below 96 KiB of head",
     "read_to_bytes' inner reads (through tokio's Take into Http1Body::poll_read) are modelled as reads of the connection itself: there "
     "poll_read's own cap content_length - offset is never below Take's limit; the differential run covers the combination",
